@@ -348,6 +348,9 @@ Inductive sop :=
 | SWait (n : nat)
 | SReadPrio | SReadAll
 | SReadPart                   (* one byte of the second chunk of every multi-chunk file *)
+| SMount (f : fault) (noprefetch nobg : bool)   (* fs.Mount: resolves, spawns Prefetch (unless noprefetch) and
+                                                   BackgroundFetch (unless no_background_fetch), registers the layer *)
+| SCheck (registered check_always noprefetch full : bool)  (* fs.Check; full = the blob was fetched completely (observed) *)
 | SBg (n : nat) (f : fault) (intf : bool).
 
 Inductive res := ROk | RErr | RTimeout | RStalled | RNone.
@@ -364,7 +367,8 @@ Record oout := mkOut {
   o_pfsize : Z;                   (* Info().PrefetchSize after the body *)
   o_keys : option (list key);     (* chunk keys visible in the chunk cache, when probed (persistence quiescent) *)
   o_errs : Z;                     (* files that failed to read *)
-  o_grew : bool                   (* the request log grew during the reads *)
+  o_grew : bool;                  (* the request log grew during the reads *)
+  o_waited : bool                 (* fs.Check took at least the prefetch timeout *)
 }.
 
 (* what the model says about one op; None / false = no claim *)
@@ -373,6 +377,7 @@ Record pred := mkPred {
   p_reqs : option (list (Z * Z) * bool);  (* requests of blob.Cache (as a set; they come first); true = nothing may follow
                                              them (false: decompressing files that straddle the range reads on) *)
   p_pfsize : option Z;
+  p_waited : option bool;
   p_local : bool                  (* the reads are served without the registry and succeed *)
 }.
 
@@ -400,12 +405,23 @@ Definition req_fails (f : fault) (reg : bool) (r : Z * Z) : bool :=
   if negb reg then true
   else match f with FFail from => (fst r + snd r >? from) | _ => false end.
 
-Definition nopred : pred := mkPred None None None false.
+Definition mkP (r : option res) (q : option (list (Z * Z) * bool)) (z : option Z) (l : bool) : pred := mkPred r q z None l.
+Definition nopred : pred := mkP None None None false.
 
 (* reads are certainly local when every key needed was cached and nothing can have been dropped *)
 Definition lossless_now (c : cfg) (s : sst) : bool := lossless (c_fs c) || negb (s_held s).
 
 Definition files_local (s : sst) (fs : list file) : bool := subK (all_keys fs) (s_fs s).
+
+(* fs.Check on the waiter: layer registered? connectivity (skipped when the blob is complete)? then, unless prefetch is
+   disabled, WaitForPrefetchCompletion, whose timeout is only logged. In a script nothing else happens while the call is
+   parked, so a parked call ends by its timer. Result: (waiter, result, waited). *)
+Definition fs_check (registered conn_ok noprefetch : bool) (w : wst) (id : nat) : wst * res * bool :=
+  if negb registered then (w, RErr, false)
+  else if negb conn_ok then (w, RErr, false)
+  else if noprefetch then (w, ROk, false)
+  else let w1 := wstep w (WaitEnter id) in
+       if memN id (waiting w1) then (wstep w1 (WaitTimeout id), ROk, true) else (w1, ROk, false).
 
 Definition sstep (c : cfg) (fs : list file) (pre : list Z) (s : sst) (o : sop) : sst * pred :=
   let w := s_w s in
@@ -413,11 +429,11 @@ Definition sstep (c : cfg) (fs : list file) (pre : list Z) (s : sst) (o : sop) :
   match o with
   | SHold =>
       let lossy := negb (lossless (c_fs c)) || negb (c_http_lossless c) in
-      (mkS w (s_next s) (s_reg s) lossy (s_fs s) (s_exact s) (s_stalled s) (s_pfok s) (s_bgok s), mkPred (Some ROk) None None false)
+      (mkS w (s_next s) (s_reg s) lossy (s_fs s) (s_exact s) (s_stalled s) (s_pfok s) (s_bgok s), mkP (Some ROk) None None false)
   | SSettle =>
-      (mkS w (s_next s) (s_reg s) false (s_fs s) (s_exact s) (s_stalled s) (s_pfok s) (s_bgok s), mkPred (Some ROk) None None false)
-  | SOff => (mkS w (s_next s) false (s_held s) (s_fs s) (s_exact s) (s_stalled s) (s_pfok s) (s_bgok s), mkPred (Some ROk) None None false)
-  | SOn => (mkS w (s_next s) true (s_held s) (s_fs s) (s_exact s) (s_stalled s) (s_pfok s) (s_bgok s), mkPred (Some ROk) None None false)
+      (mkS w (s_next s) (s_reg s) false (s_fs s) (s_exact s) (s_stalled s) (s_pfok s) (s_bgok s), mkP (Some ROk) None None false)
+  | SOff => (mkS w (s_next s) false (s_held s) (s_fs s) (s_exact s) (s_stalled s) (s_pfok s) (s_bgok s), mkP (Some ROk) None None false)
+  | SOn => (mkS w (s_next s) true (s_held s) (s_fs s) (s_exact s) (s_stalled s) (s_pfok s) (s_bgok s), mkP (Some ROk) None None false)
   | SPf n f =>
       let n := Nat.max n 1 in
       match pf w with
@@ -426,7 +442,7 @@ Definition sstep (c : cfg) (fs : list file) (pre : list Z) (s : sst) (o : sop) :
           match prefetch_range (c_np c) (c_lm c) (c_size c) (c_blob c) with
           | None =>
               (set_w (mkS w (s_next s) (s_reg s) (s_held s) (s_fs s) (s_exact s) None true (s_bgok s)) (wstep w1 (PfReturn true)),
-               mkPred (Some ROk) (Some ([], true)) (Some 0) false)
+               mkP (Some ROk) (Some ([], true)) (Some 0) false)
           | Some tgt =>
               let w2 := if goes_async (c_async c) tgt then wstep w1 PfAsync else w1 in
               let reqs := cache_requests (c_cs c) (c_pcs c) (c_blob c) pre tgt in
@@ -435,9 +451,9 @@ Definition sstep (c : cfg) (fs : list file) (pre : list Z) (s : sst) (o : sop) :
               let strict := match c_lm c with Some _ => true | None => false end in
               let preqs ok := if c_http_lossless c then Some (reqs, strict || negb ok) else None in
               match f, reqs, s_reg s with
-              | FStall, _ :: _, true =>
+              | FStall, _ :: _, _ =>      (* the registry parks a request before it decides whether to answer *)
                   (mkS w2 (s_next s) (s_reg s) (s_held s) (s_fs s) (s_exact s) (Some (reqs, keys)) false (s_bgok s),
-                   mkPred (Some RStalled) None None false)
+                   mkP (Some RStalled) None None false)
               | _, _, _ =>
                   let ok := negb (existsb (req_fails f (s_reg s)) reqs) in
                   (* without a landmark, files that start inside the range are decompressed completely, which may read
@@ -446,61 +462,73 @@ Definition sstep (c : cfg) (fs : list file) (pre : list Z) (s : sst) (o : sop) :
                   if known && certain then
                     let s1 := mkS (wstep w2 (PfReturn ok)) (s_next s) (s_reg s) (s_held s)
                                   (if ok then keys ++ s_fs s else s_fs s) (s_exact s) None ok (s_bgok s) in
-                    (s1, mkPred (Some (if ok then ROk else RErr)) (preqs ok) (Some (if ok then tgt else 0)) false)
+                    (s1, mkP (Some (if ok then ROk else RErr)) (preqs ok) (Some (if ok then tgt else 0)) false)
                   else
                     (* compressed chunks may be re-fetched while their persistence is held: no claim on success *)
                     (inexact (mkS (wstep w2 (PfReturn ok)) (s_next s) (s_reg s) (s_held s) (s_fs s) (s_exact s) None false (s_bgok s)),
                      nopred)
               end
           end
-      | Running => (set_w s (repeat_op n PfCall w), mkPred (Some RStalled) None None false)
-      | Finished => (set_w s (repeat_op n PfCall w), mkPred (Some ROk) (Some ([], true)) None false)
+      | Running => (set_w s (repeat_op n PfCall w), mkP (Some RStalled) None None false)
+      | Finished => (set_w s (repeat_op n PfCall w), mkP (Some ROk) (Some ([], true)) None false)
       end
   | SRel =>
       match s_stalled s with
       | Some (reqs, keys) =>
           let known := c_http_lossless c || negb (s_held s) in
-          if known then
+          let strict := match c_lm c with Some _ => true | None => false end in
+          let ok := s_reg s in     (* the parked requests are answered iff the registry is reachable when released *)
+          if known && (strict || negb ok) then
+            (mkS (wstep w (PfReturn ok)) (s_next s) (s_reg s) (s_held s) (if ok then keys ++ s_fs s else s_fs s) (s_exact s) None ok (s_bgok s),
+             mkP (Some (if ok then ROk else RErr)) (if c_http_lossless c then Some (reqs, strict || negb ok) else None) None false)
+          else if known then
+            (* no landmark: the decompression phase may read on; with a reachable registry and no fault it succeeds *)
             (mkS (wstep w (PfReturn true)) (s_next s) (s_reg s) (s_held s) (keys ++ s_fs s) (s_exact s) None true (s_bgok s),
-             mkPred (Some ROk) (if c_http_lossless c then Some (reqs, match c_lm c with Some _ => true | None => false end) else None) None false)
+             mkP (Some ROk) (if c_http_lossless c then Some (reqs, false) else None) None false)
           else
             (inexact (mkS (wstep w (PfReturn true)) (s_next s) (s_reg s) (s_held s) (s_fs s) (s_exact s) None false (s_bgok s)), nopred)
-      | None => (s, mkPred (Some RNone) None None false)
+      | None => (s, mkP (Some RNone) None None false)
       end
   | SWait n =>
       let n := Nat.max n 1 in
       if closed w then
         (* every call returns nil at once *)
         let w1 := fold_left (fun w i => wstep w (WaitEnter (s_next s + i)%nat)) (seq 0 n) w in
-        (mkS w1 (s_next s + n) (s_reg s) (s_held s) (s_fs s) (s_exact s) (s_stalled s) (s_pfok s) (s_bgok s), mkPred (Some ROk) None None false)
+        (mkS w1 (s_next s + n) (s_reg s) (s_held s) (s_fs s) (s_exact s) (s_stalled s) (s_pfok s) (s_bgok s), mkP (Some ROk) None None false)
       else
         (* all park; the first timer closes the waiter; the others time out as well or see the closed channel *)
         let w1 := fold_left (fun w i => wstep w (WaitEnter (s_next s + i)%nat)) (seq 0 n) w in
         let w2 := wstep w1 (WaitTimeout (s_next s)) in
         let w3 := fold_left (fun w i => wstep w (WaitDone (s_next s + i)%nat)) (seq 1 (n - 1)) w2 in
-        (mkS w3 (s_next s + n) (s_reg s) (s_held s) (s_fs s) (s_exact s) (s_stalled s) (s_pfok s) (s_bgok s), mkPred (Some RTimeout) None None false)
+        (mkS w3 (s_next s + n) (s_reg s) (s_held s) (s_fs s) (s_exact s) (s_stalled s) (s_pfok s) (s_bgok s), mkP (Some RTimeout) None None false)
   | SReadPrio | SReadAll =>
-      if busy then (s, mkPred (Some RNone) None None false)
+      if busy then (s, mkP (Some RNone) None None false)
       else
         let sel := match o with
                    | SReadPrio => filter (fun f => f_prio f && negb (f_land f)) fs
                    | _ => filter (fun f => negb (f_land f)) fs
                    end in
         let loc := files_local s sel && lossless_now c s in
-        if loc then (s, mkPred (Some ROk) None None true)
-        else if s_reg s && lossless_now c s then (add_fs s (all_keys sel), mkPred (Some ROk) None None false)
-        else (inexact s, mkPred (Some ROk) None None false)
+        if loc then (s, mkP (Some ROk) None None true)
+        else if s_reg s && lossless_now c s then (add_fs s (all_keys sel), mkP (Some ROk) None None false)
+        else (inexact s, mkP (Some ROk) None None false)
+  | SMount _ _ _ => (s, nopred)   (* see [sstep2] *)
   | SReadPart =>
-      if busy then (s, mkPred (Some RNone) None None false)
+      if busy then (s, mkP (Some RNone) None None false)
       else
         let keys := flat_map (fun f => if f_land f then [] else
                                 match f_chunks f with _ :: (co, cz) :: _ => [(f_id f, co, cz)] | _ => [] end) fs in
-        if subK keys (s_fs s) && lossless_now c s then (s, mkPred (Some ROk) None None true)
-        else if s_reg s && lossless_now c s then (add_fs s keys, mkPred (Some ROk) None None false)
-        else (inexact s, mkPred (Some ROk) None None false)
+        if subK keys (s_fs s) && lossless_now c s then (s, mkP (Some ROk) None None true)
+        else if s_reg s && lossless_now c s then (add_fs s keys, mkP (Some ROk) None None false)
+        else (inexact s, mkP (Some ROk) None None false)
+  | SCheck registered check_always noprefetch full =>
+      let conn_ok := full || negb check_always || s_reg s in
+      let '(w1, r, waited) := fs_check registered conn_ok noprefetch w (s_next s) in
+      (mkS w1 (S (s_next s)) (s_reg s) (s_held s) (s_fs s) (s_exact s) (s_stalled s) (s_pfok s) (s_bgok s),
+       mkPred (Some r) None None (Some waited) false)
   | SBg n f intf =>
       let n := Nat.max n 1 in
-      if busy then (s, mkPred (Some RNone) None None false)
+      if busy then (s, mkP (Some RNone) None None false)
       else
         match bg w with
         | Idle =>
@@ -508,17 +536,35 @@ Definition sstep (c : cfg) (fs : list file) (pre : list Z) (s : sst) (o : sop) :
             let nonland := filter (fun f => negb (f_land f)) fs in
             if files_local s fs && lossless_now c s then
               (mkS (wstep w1 (BgReturn true)) (s_next s) (s_reg s) (s_held s) (s_fs s) (s_exact s) None (s_pfok s) true,
-               mkPred (Some ROk) None None false)
+               mkP (Some ROk) None None false)
             else
               match f, s_reg s, lossless_now c s with
               | FNone, true, true =>
                   (mkS (wstep w1 (BgReturn true)) (s_next s) (s_reg s) (s_held s) (all_keys fs ++ s_fs s) (s_exact s) None (s_pfok s) true,
-                   mkPred (Some ROk) None None false)
+                   mkP (Some ROk) None None false)
               | _, _, _ =>
                   (inexact (mkS (wstep w1 (BgReturn false)) (s_next s) (s_reg s) (s_held s) (s_fs s) (s_exact s) None (s_pfok s) false), nopred)
               end
-        | _ => (set_w s (repeat_op n BgCall w), mkPred (Some ROk) None None false)
+        | _ => (set_w s (repeat_op n BgCall w), mkP (Some ROk) None None false)
         end
+  end.
+
+(* fs.Mount = the prefetch step of one caller (result not observable: the goroutine's error is only logged) followed,
+   when background fetch is enabled, by the background-fetch step; with background fetch enabled the two run
+   concurrently, so the requests are not attributed and a registry fault leaves everything open. *)
+Definition sstep2 (c : cfg) (fs : list file) (pre : list Z) (s : sst) (o : sop) : sst * pred :=
+  match o with
+  | SMount f noprefetch nobg =>
+      let '(s1, p1) := if noprefetch then (s, mkP (Some ROk) None None false) else sstep c fs pre s (SPf 1 f) in
+      let stalled := match p_res p1 with Some RStalled => true | _ => false end in
+      let p1' := mkP (if stalled then Some RStalled else Some ROk) (if nobg then p_reqs p1 else None) (if stalled then None else p_pfsize p1) false in
+      if nobg || stalled then (s1, p1')
+      else match f with
+           | FNone => let '(s2, _) := sstep c fs pre s1 (SBg 1 FNone false) in (s2, p1')
+           | _ => (inexact (mkS (wstep (wstep (s_w s1) BgCall) (BgReturn false)) (s_next s1) (s_reg s1) (s_held s1) (s_fs s1) false
+                                (s_stalled s1) false false), mkP (Some ROk) None None false)
+           end
+  | _ => sstep c fs pre s o
   end.
 
 (* --- comparison with the observation --- *)
@@ -542,6 +588,7 @@ Definition check_out (s' : sst) (p : pred) (o : oout) : bool :=
       | None => true
       end)
   && (match p_pfsize p with Some z => z =? o_pfsize o | None => true end)
+  && (match p_waited p with Some b => Bool.eqb b (o_waited o) | None => true end)
   && (if p_local p then negb (o_grew o) && (o_errs o =? 0) else true)
   && (match o_keys o with
       | Some ks => subK (s_fs s') ks && (if s_exact s' then subK ks (s_fs s') else true)
@@ -551,7 +598,7 @@ Definition check_out (s' : sst) (p : pred) (o : oout) : bool :=
 Fixpoint srun (c : cfg) (fs : list file) (pre : list Z) (s : sst) (os : list sop) (obs : list oout) : bool :=
   match os, obs with
   | [], [] => true
-  | o :: os', x :: obs' => let '(s1, p) := sstep c fs pre s o in check_out s1 p x && srun c fs pre s1 os' obs'
+  | o :: os', x :: obs' => let '(s1, p) := sstep2 c fs pre s o in check_out s1 p x && srun c fs pre s1 os' obs'
   | _, _ => false
   end.
 
